@@ -20,6 +20,26 @@ def majority_sites(ctx):
             dn = U.deref(P, f, n)           # a threshold hoisted into a local is looked through
             n._deref = dn
             sides = [dn.left, dn.comparators[0]]
+            # a threshold kept in an attribute (`self.__quorum = (len(voters) + 1) / 2` ... `count > self.__quorum`): the
+            # arithmetic is the stored one; R-majority additionally demands that the attribute follows the voter set
+            for i in (0, 1):
+                a_ = P.self_attr(sides[i], sn)
+                if a_ is None:
+                    continue
+                vals = []
+                for g in P.methods_of(R.S):
+                    for st, kind in U.assigns_to_attr(P, g, a_):
+                        vals.append((g, st))
+                if vals and all(kind_ok(P, g, st) for g, st in vals):
+                    import copy
+                    dn = copy.copy(dn)
+                    if i == 0:
+                        dn.left = vals[0][1].value
+                    else:
+                        dn.comparators = [vals[0][1].value]
+                    n._deref = dn
+                    n._cached = (a_, vals)
+                    sides = [dn.left, dn.comparators[0]]
             for i in (0, 1):
                 th = sides[i]
                 if not isinstance(th, ast.BinOp):
@@ -37,6 +57,15 @@ def majority_sites(ctx):
                         counter = atoms[0]
                 out.append((f, n, P.self_attr(lens[0].args[0], sn), counter, th, lens[0]))
     return out
+
+
+def kind_ok(P, g, st):
+    """`self.A = <arithmetic over len(self.<set>) with a division>`"""
+    v = getattr(st, 'value', None)
+    if not isinstance(st, ast.Assign) or not isinstance(v, ast.BinOp):
+        return False
+    has_len = any(isinstance(c, ast.Call) and isinstance(c.func, ast.Name) and c.func.id == 'len' and c.args and P.self_attr(c.args[0], g.self_name) for c in ast.walk(v))
+    return has_len and any(isinstance(x, (ast.Div, ast.FloorDiv)) for x in ast.walk(v))
 
 
 def counter_on_left(cmpn):
@@ -75,7 +104,7 @@ def _iter_population(ctx, f, it):
     return None, None, 'population `%s` not understood' % unparse(it)
 
 
-def _counter_info(ctx, f, counter, cmp_node):
+def _counter_info(ctx, f, counter, cmp_node, _depth=0):
     """(kind, init value, counted population text, problems, extra) for the counter expression of a majority test;
     extra = {'cond': ast condition under which a member is counted, 'var': loop variable, 'unproven': note}"""
     P, R = ctx.P, ctx.R
@@ -95,11 +124,17 @@ def _counter_info(ctx, f, counter, cmp_node):
                 inits.append(n)
             elif isinstance(n, ast.AugAssign) and isinstance(n.target, ast.Name) and n.target.id == name:
                 incs.append(n)
-        inits = [i for i in inits if i.lineno <= cmp_node.lineno]
+        O = lambda x: U.ordr(f, x)     # source order (line numbers do not order inlined helper bodies)
+        inits = [i for i in inits if O(i) <= O(cmp_node)]
         if not inits:
             return None
-        init = max(inits, key=lambda i: i.lineno)
+        init = max(inits, key=O)
         v = init.value
+        if isinstance(v, ast.Name) and v.id != name and _depth < 3 and (P._is_local(f, v.id) or v.id in f.params):
+            # the counter is a copy of another local (the value a counting helper handed back): that one is the counter
+            sub = _counter_info(ctx, f, v, init, _depth + 1)
+            if sub is not None:
+                return sub
         # form 2: K + sum(1 for x in ITER if COND)  /  K + len([x for x in ITER if COND])
         comp = None
         k = None
@@ -121,7 +156,7 @@ def _counter_info(ctx, f, counter, cmp_node):
             extra['cond'] = gen.ifs[0] if len(gen.ifs) == 1 else (ast.BoolOp(op=ast.And(), values=gen.ifs) if gen.ifs else None)
             extra['var'] = gen.target
             extra['iter'] = gen.iter
-            later = [i for i in incs if init.lineno < i.lineno <= cmp_node.lineno]
+            later = [i for i in incs if O(init) < O(i) <= O(cmp_node)]
             for inc in later:
                 problems.append('counter %s additionally changed by `%s`' % (name, unparse(inc)))
             return ('local', k, unparse(gen.iter), problems, extra)
@@ -129,7 +164,7 @@ def _counter_info(ctx, f, counter, cmp_node):
             return None
         counted = None
         for inc in incs:
-            if not (init.lineno < inc.lineno <= cmp_node.lineno):
+            if not (O(init) < O(inc) <= O(cmp_node)):
                 continue
             if not (isinstance(inc.op, ast.Add) and isinstance(inc.value, ast.Constant) and inc.value.value == 1):
                 problems.append('counter %s changed by `%s`' % (name, unparse(inc)))
@@ -137,7 +172,7 @@ def _counter_info(ctx, f, counter, cmp_node):
             loop = None
             for n in U.walk_no_nested(f.node):
                 if isinstance(n, ast.For) and any(x is inc for x in ast.walk(n)):
-                    if loop is None or n.lineno > loop.lineno:
+                    if loop is None or O(n) > O(loop):
                         loop = n
             if loop is None:
                 problems.append('counter %s incremented outside a loop over the voters' % name)
@@ -153,7 +188,7 @@ def _counter_info(ctx, f, counter, cmp_node):
             # the condition guarding the increment inside the loop
             conds = [x for x in ast.walk(loop) if isinstance(x, ast.If) and any(y is inc for y in ast.walk(x))]
             if conds:
-                extra['cond'] = max(conds, key=lambda c: c.lineno).test
+                extra['cond'] = max(conds, key=O).test
         return ('local', v.value, counted, problems, extra)
     a = P.self_attr(counter, sn)
     if a is not None:
@@ -218,6 +253,37 @@ def r_majority(ctx):
         except AnalysisError as e:
             ctx.unproven(inst, loc, str(e))
             continue
+        cached = getattr(cmpn, '_cached', None)
+        if cached is not None:
+            # the threshold is a stored value: it must be recomputed wherever the voter set changes
+            attr_, vals = cached
+            refreshers = set(g.qualname for g, st in vals)
+            stale = []
+            for g in P.methods_of(R.S):
+                if g.name == '__init__':
+                    continue
+                muts = [a for a in P.accesses(g) if a.attr == R.voters and a.kind in ('write', 'aug', 'mutcall', 'del', 'elem_write')]
+                if not muts:
+                    continue
+                if g.qualname not in refreshers:
+                    stale.append(g)
+                    continue
+                # ... after the change, on every normal path to the exit
+                gcfg = U.explorer(ctx, g).cfg
+                rn = [U.node_containing(gcfg, st).id for g2, st in vals if g2 is g]
+                for a in muts:
+                    mn = U.node_containing(gcfg, a.node)
+                    if mn is None:
+                        continue
+                    succ = [d for d, l in mn.succ if not (isinstance(l, tuple) and l[0] == 'exc')]
+                    if any(gcfg.exit.id in gcfg.reachable_from(d, avoid=rn, follow_exc=False) for d in succ if d not in rn) and g not in stale:
+                        stale.append(g)
+            ctx.tick()
+            if stale:
+                ctx.violation('%s:majority-threshold-stale' % f.qualname, loc,
+                              'the majority threshold is read from self.%s, which %s do(es) not recompute when changing the voter set self.%s: after a membership change the '
+                              'test uses the majority size of the old cluster' % (attr_, ', '.join(g.qualname for g in stale), R.voters), instance=inst + ' [threshold follows the voter set]')
+                continue
         if as_majority or as_minority:
             ctx.ok(inst, loc, 'equivalent to %s2*(agreeing+self) > voters+1 for n=0..8; counter init=%s over %s'
                    % ('' if as_majority else 'NOT ', init, counted or 'vote replies'))
